@@ -27,7 +27,7 @@ structure ShapeOK (σ : State S) : Prop where
   shapes : ∀ (n : Nat) (r : NodeRec S) (tag : OpTag S), σ.nodes[n]? = some r → r.op = some tag →
     TagShape tag (r.kids.map σ.tensorOf) ⟨[], σ.bufs.getD r.selfBuf []⟩ r.dims
 
-theorem linGraph_of_shapeOK [AddLaws S] [MulLaws S] (σ : State S) (hi : HeapInv σ) (hs : ShapeOK σ) :
+theorem linGraph_of_shapeOK [AddLaws S] [MulLaws S] [CommLaws S] (σ : State S) (hi : HeapInv σ) (hs : ShapeOK σ) :
     LinGraph σ.graph σ.dimsOf where
   slotDims := by
     intro n s hm
@@ -76,19 +76,46 @@ theorem linGraph_of_shapeOK [AddLaws S] [MulLaws S] (σ : State S) (hi : HeapInv
           simp [Handle.slot, State.tensorOf]
         have e3 : σ.dimsOf n = r.dims := by simp [State.dimsOf, hn]
         rw [e1, e2, e3]
-        exact h
+        exact h.1
+  hom := by
+    intro n cl hv α
+    simp only [State.graph] at hv ⊢
+    cases hn : σ.nodes[n]? with
+    | none => simp [hn] at hv
+    | some r =>
+      simp only [hn] at hv ⊢
+      cases hop : r.op with
+      | none => simp [hop] at hv
+      | some tag =>
+        simp only [hop, Option.map_some, Option.some.injEq] at hv
+        subst hv
+        have h := vjp_lin tag (r.kids.map σ.tensorOf) ⟨[], σ.bufs.getD r.selfBuf []⟩ (r.kids.map (·.tracked))
+          r.dims (hs.shapes n r tag hn hop) (by simp)
+        have e1 : (r.kids.map Handle.slot).map (·.tracked) = r.kids.map (·.tracked) := by
+          simp [Handle.slot]
+        have e2 : (r.kids.map Handle.slot).map (·.dims) = (r.kids.map σ.tensorOf).map (·.dims) := by
+          simp [Handle.slot, State.tensorOf]
+        have e3 : σ.dimsOf n = r.dims := by simp [State.dimsOf, hn]
+        rw [e1, e2, e3]
+        exact h.2 α
 
 /-- the value laws of a shape-consistent heap: `Λ n i x` is the reduced `i`-th answer of node `n`'s
     stored closure on `x` -/
-def State.sem [AddLaws S] [MulLaws S] (σ : State S) (κ : Nat → Bool) (hi : HeapInv σ) (hs : ShapeOK σ) : Sem σ.graph :=
+def State.sem [AddLaws S] [MulLaws S] [CommLaws S] (σ : State S) (κ : Nat → Bool) (hi : HeapInv σ) (hs : ShapeOK σ) : Sem σ.graph :=
   Sem.ofLin κ (linGraph_of_shapeOK σ hi hs)
 
-theorem State.sem_Λ [AddLaws S] [MulLaws S] (σ : State S) (κ : Nat → Bool) (hi : HeapInv σ) (hs : ShapeOK σ)
+theorem State.sem_Λ [AddLaws S] [MulLaws S] [CommLaws S] (σ : State S) (κ : Nat → Bool) (hi : HeapInv σ) (hs : ShapeOK σ)
     (n i : Nat) (x : Tensor S) :
     (σ.sem κ hi hs).Λ n i x
       = contrib (σ.graph.vjp n) ((σ.graph.kids n).map (·.tracked)) ((σ.graph.kids n).map (·.dims)) i x := rfl
 
-theorem State.sem_dimsOf [AddLaws S] [MulLaws S] (σ : State S) (κ : Nat → Bool) (hi : HeapInv σ) (hs : ShapeOK σ) :
+theorem State.sem_dimsOf [AddLaws S] [MulLaws S] [CommLaws S] (σ : State S) (κ : Nat → Bool) (hi : HeapInv σ) (hs : ShapeOK σ) :
     (σ.sem κ hi hs).dimsOf = σ.dimsOf := rfl
+
+/-- the contributions of a shape-consistent heap commute with scaling the delta -/
+theorem State.sem_smul [AddLaws S] [MulLaws S] [CommLaws S] (σ : State S) (κ : Nat → Bool) (hi : HeapInv σ) (hs : ShapeOK σ)
+    (α : S) (n i : Nat) (s : Slot) (x : Tensor S) (hk : (σ.graph.kids n)[i]? = some s) (hx : Shaped (σ.dimsOf n) x) :
+    (σ.sem κ hi hs).Λ n i (tsmul α x) = tsmul α ((σ.sem κ hi hs).Λ n i x) :=
+  Sem.ofLin_smul κ (linGraph_of_shapeOK σ hi hs) α n i s x hk hx
 
 end Corgi
